@@ -171,72 +171,33 @@ template <typename NumericType>
   static_assert(std::is_floating_point<NumericType>::value,
                 "The NumericType template parameter of PhQ::Print<NumericType> must be a numeric "
                 "floating-point type: float, double, or long double.");
-  const NumericType absolute{std::abs(value)};
-  std::ostringstream stream;
-  if (absolute < 1.0) {
-    // Interval: [0, 1[
-    if (absolute < 0.001) {
-      // Interval: [0, 0.001[
-      if (absolute == 0.0) {
-        // Interval: [0, 0]
-        stream << 0;
-      } else {
-        // Interval: ]0, 0.001[
-        stream << std::scientific
-               << std::setprecision(std::numeric_limits<NumericType>::max_digits10) << value;
-      }
-    } else {
-      // Interval: [0.001, 1[
-      if (absolute < 0.1) {
-        // Interval: [0.001, 0.1[
-        if (absolute < 0.01) {
-          // Interval: [0.001, 0.01[
-          stream << std::fixed
-                 << std::setprecision(std::numeric_limits<NumericType>::max_digits10 + 3) << value;
-        } else {
-          // Interval: [0.01, 0.1[
-          stream << std::fixed
-                 << std::setprecision(std::numeric_limits<NumericType>::max_digits10 + 2) << value;
-        }
-      } else {
-        // Interval: [0.1, 1[
-        stream << std::fixed
-               << std::setprecision(std::numeric_limits<NumericType>::max_digits10 + 1) << value;
-      }
-    }
-  } else {
-    // Interval: [1, +inf[
-    if (absolute < 1000.0) {
-      // Interval: [1, 1000[
-      if (absolute < 10.0) {
-        // Interval: [1, 10[
-        stream << std::fixed << std::setprecision(std::numeric_limits<NumericType>::max_digits10)
-               << value;
-      } else {
-        // Interval: [10, 1000[
-        if (absolute < 100.0) {
-          // Interval: [10, 100[
-          stream << std::fixed
-                 << std::setprecision(std::numeric_limits<NumericType>::max_digits10 - 1) << value;
-        } else {
-          // Interval: [100, 1000[
-          stream << std::fixed
-                 << std::setprecision(std::numeric_limits<NumericType>::max_digits10 - 2) << value;
-        }
-      }
-    } else {
-      // Interval: [1000, +inf[
-      if (absolute < 10000.0) {
-        // Interval: [1000, 10000[
-        stream << std::fixed
-               << std::setprecision(std::numeric_limits<NumericType>::max_digits10 - 3) << value;
-      } else {
-        // Interval: [10000, +inf[
-        stream << std::scientific
-               << std::setprecision(std::numeric_limits<NumericType>::max_digits10) << value;
-      }
-    }
+  if (value == static_cast<NumericType>(0)) {
+    return "0";
   }
+  // Print the number in scientific notation with max_digits10 + 1 significant digits, which is
+  // enough digits to represent it exactly.
+  std::ostringstream stream;
+  stream << std::scientific << std::setprecision(std::numeric_limits<NumericType>::max_digits10)
+         << value;
+  const std::string scientific{stream.str()};
+  const std::size_t exponent_position{scientific.find('e')};
+  if (exponent_position == std::string::npos) {
+    // The number is infinite or not a number.
+    return scientific;
+  }
+  // Read the decimal exponent back from the printed digits themselves. Comparing the number with
+  // literals such as 0.001, 0.01, or 0.1 instead would be inexact, since these decimal bounds are
+  // not representable in binary floating-point; numbers at or next to such a bound would end up in
+  // the neighboring interval and be printed with one significant digit too many or too few.
+  const int exponent{std::stoi(scientific.substr(exponent_position + 1))};
+  if (exponent < -3 || exponent > 3) {
+    // Intervals: ]0, 0.001[ and [10000, +inf[
+    return scientific;
+  }
+  // Interval: [0.001, 10000[. Use fixed notation with the same number of significant digits.
+  stream.str("");
+  stream << std::fixed
+         << std::setprecision(std::numeric_limits<NumericType>::max_digits10 - exponent) << value;
   return stream.str();
 }
 
